@@ -588,12 +588,15 @@ func c16Run(c *vk.Ctx, cs c16Case) {
 			v := h.conv[i]
 			fwd := atomic.LoadInt32(&h.fwd)
 			sb := h.released[i]
+			closesBefore := md.closes
 			sent := h.async(func() { v.status <- NewConvergencePeerDisappeared(v.as(), v.eid) })
-			if !h.drive("peergone/send", sent, -1, 0, 5*time.Second) {
+			// (the flag behind sent() may lag behind the manager, which closes the adapter as soon as it has the message:
+			// the wait ends with the Close as well, so that the adapter's next Start is not answered in this phase)
+			if !h.drive("peergone/send", func() bool { return sent() || h.model[i].closes > closesBefore }, -1, 0, 5*time.Second) {
 				h.fail("c16.deadlock", "the manager did not take a status message of started adapter %d within 5 s", i)
 			}
-			// the manager stops the adapter ...
-			if !h.drive("peergone/close", func() bool { return !h.model[i].active }, -1, 0, 5*time.Second) {
+			// the manager stops the adapter ... (counted, not read from the state: the adapter is started again at once)
+			if !h.drive("peergone/close", func() bool { return h.model[i].closes > closesBefore }, -1, 0, 5*time.Second) {
 				h.fail("c16.no-restart", "peer loss reported by adapter %d, but the adapter was not stopped within 5 s", i)
 			}
 			okS := md.okStarts
